@@ -253,10 +253,7 @@ func body(k cfg) func(c *drv.Ctx) {
 // environment choices of the explorer. Every batch in its own client thread, started when everything
 // the previous one set in motion has settled; the backup runs in its own thread.
 func bodyGatedFamily(k cfg) func(c *drv.Ctx) {
-	menu := fgate.Menu() // quick: single gates; thorough: persister+merger pairs as well
-	if mc.Tier() == "thorough" {
-		menu = fgate.MenuPairs()
-	}
+	menu := fgate.Menu() // single gates (thorough: closed for 1 or 2 steps); the product with start step and hold time is already large
 	return func(c *drv.Ctx) {
 		word := k.family[vrt.Choose(len(k.family), "workload")]
 		wl := lww.BuildWord(word)
@@ -812,7 +809,7 @@ func Scenarios() []drv.Scenario {
 		return sc
 	}
 	gfam := func(name string, conf map[string]interface{}, quick bool) drv.Scenario {
-		gw := lww.GatedWords(mc.Tier())
+		gw := lww.Words("ubdxz", 2) // thorough: x 49 gates x 3 start steps x 3 hold times
 		if mc.Tier() != "thorough" {
 			gw = lww.Words("bdz", 2) // x 25 gates x 3 start steps x 3 hold times
 		}
